@@ -217,9 +217,10 @@ class C17(Property):
       if can_play:
         opts += [(3, "play")]
       opts += [(1, "play_bad")]
-      if not any(op[0] == "record" for op in script):
+      nrec = sum(1 for op in script if op[0] == "record")
+      if nrec < 2:
         opts += [(1, "record")]
-      elif W.chance("rectake", 1, 2):
+      if nrec and W.chance("rectake", 1, 2):
         opts += [(1, "rec_take"), (1, "rec_stop")]
       op = W.weighted("op", opts)
       if op == "play":
@@ -234,9 +235,9 @@ class C17(Property):
                                   "rate": W.pick("rrate", [None, 8000]),
                                   "dev": W.pick("rdev", [None, None, 0, 4])}])
       elif op == "rec_take":
-        script.append(["rec_take", W.span("rn", 1, 6)])
+        script.append(["rec_take", W.span("rn", 1, 6), W.choose("which", nrec)])
       elif op == "rec_stop":
-        script.append(["rec_stop", 0])
+        script.append(["rec_stop", W.choose("which", nrec)])
       else:
         i = W.choose("who", len(specs))
         script.append([op, i])
@@ -630,15 +631,21 @@ class C17(Property):
           if not rec.recording:
             outcome["rec_flag"] = "recording is False right after record()"
         elif name == "rec_take":
-          if ctl["rec"] and not ctl.get("rec_stopped"):
-            got = ctl["rec"][0].take(op[1])
+          which = op[2] if len(op) > 2 else 0
+          stopped = ctl.setdefault("rec_stopped_set", set())
+          if which < len(ctl["rec"]) and which not in stopped:
+            got = ctl["rec"][which].take(op[1])
             outcome.setdefault("rec_taken", []).extend(got)
         elif name == "rec_stop":
           # the user stops a recording without reading it to its end
-          if ctl["rec"]:
-            ctl["rec"][0].stop()
+          which = op[1] if len(op) > 1 else 0
+          if which < len(ctl["rec"]):
+            ctl["rec"][which].stop()
+            ctl.setdefault("rec_stopped_set", set()).add(which)
             ctl["rec_stopped"] = True
             res.counters["probe.recording-stopped-before-close"] += 1
+            if len(ctl["rec"]) > 1:
+              res.counters["probe.two-recordings-open"] += 1
         else:
           pi = ctl["script_players"][op[1]]     # children shift the indexes
           th = ctl["players"][pi]
